@@ -51,9 +51,25 @@ class C07(Prop):
                             extra.append(np.asarray(g2[1]).tolist())
                     if extra:
                         bs = rng.choice([1, 2, len(extra) + 1, len(extra) + 3]); row = rng.randint(0, len(extra))
-            cases.append({"sys": {k: (v.tolist() if isinstance(v, np.ndarray) else v) for k, v in sys.items()}, "b": np.asarray(b).tolist(), "tk": kind,
+            if model == "excitation" and kind in ("inside", "face") and rng.random() < 0.6:
+                # an in-gamut target fitted together with other in-gamut targets: zero error is attainable for every row at once, so each row
+                # must still be reproduced (the batch-wide maximum of the excitation model couples rows only when one of them is out of gamut, D14)
+                for _ in range(rng.randint(1, 4)):
+                    g2 = gs.gen_target_regime(rng, sys, "inside")
+                    if g2 is not None:
+                        extra.append(np.asarray(g2[1]).tolist())
+                if extra:
+                    bs = rng.choice([2, 3, len(extra) + 1, len(extra) + 3]); row = rng.randint(0, len(extra))
+            # photon counts: whole-number targets handed over with an integer dtype
+            intB = rng.random() < 0.2
+            if intB:
+                b = np.maximum(1.0, np.round(np.asarray(b, dtype=float)))
+                extra = [np.maximum(1.0, np.round(np.asarray(e, dtype=float))).tolist() for e in extra]
+                if model == "excitation" and extra:
+                    extra = []; bs = 1; row = 0          # rounded companions may leave the gamut
+            cases.append({"sys": {k: (v.tolist() if isinstance(v, np.ndarray) else v) for k, v in sys.items()}, "b": np.asarray(b).tolist(), "tk": kind, "intB": intB,
                           "model": model, "acc": acc, "w": w, "extra": extra, "bs": bs, "row": row,
-                          "kind": "%s/%s/base-%s/K-%s/%s%s%s" % (model, kind, sys["bkind"], sys["Kkind"], acc, "/w" if any(v != 1.0 for v in w) else "", "/bs%d" % bs if extra else "")})
+                          "kind": "%s/%s/base-%s/K-%s/%s%s%s" % (model, kind, sys["bkind"], sys["Kkind"], acc, "/w" if any(v != 1.0 for v in w) else "", "/bs%d" % bs if extra else "") + ("/int" if intB else "")})
         return cases
 
     def run_impl(self, case):
@@ -63,6 +79,8 @@ class C07(Prop):
         extra = case.get("extra", []); row = case.get("row", 0)
         rows = [list(e) for e in extra]; rows.insert(row, list(case["b"]))
         B = np.asarray(rows, dtype=float)
+        if case.get("intB"):
+            B = B.astype(np.int64)
         kw = dict(HI) if case["acc"] == "high" else ({"solver": "CLARABEL"} if case["model"] == "poisson" else {})
         if extra:
             kw["batch_size"] = case["bs"]
